@@ -214,6 +214,10 @@ class Ref:
         k = self.find(n, v, f, stacks)
         if k is None:
             raise NotFound()
+        if c.get("setup") and not c.get("force"):
+            sv, sf, ss = c["setup"]     # a version that a shell has set up is not undeclared under its feet
+            if self.find(n, sv, sf, [ss]) is not None and ss == k[0] and sv == v:
+                raise Refused()
         if tag:
             self._untag(f, tag, n, v, k[0], dry)
         if dry:
@@ -231,7 +235,8 @@ class Ref:
         dd = tuple(d) if isinstance(d, (list, tuple)) else d
         if c.get("recursive") and self.decl[k][1] == "default" and dd not in self.dirs:
             raise TableMissing()                    # the dependencies are read from the table file: it is gone
-        self._undeclare({"flavor": f, "name": n, "version": v, "noaction": c.get("noaction")})
+        self._undeclare({"flavor": f, "name": n, "version": v, "noaction": c.get("noaction"),
+                         "setup": c.get("setup"), "force": c.get("force")})
         if not c.get("noaction"):
             d = tuple(d) if isinstance(d, (list, tuple)) else d
             if d not in self.dirs:
